@@ -129,7 +129,9 @@ Theorem C12_isodep_terminates_any_responder : forall k cmd,
   run_stream fuel k cmd (pcd_start k cmd pn) s 0 <> Hang.
 Proof. exact stream_terminates. Qed.
 Print Assumptions C12_isodep_terminates_any_responder.
-(* ... but an S(WTX) block without WTXM byte still raises IndexError (data[1]); for C08 *)
+(* ... but an S(WTX) block without WTXM byte still raises IndexError (data[1]) in the pinned code and with the
+   c12 repairs alone; repaired by fixes/c08-03 (Type4TagCommandError), which Model/TagReadAnyB.v models - this
+   lemma is about [pcd_absorb] without that repair; a conformant card never sends such a block *)
 Theorem C12_short_wtx_crash_refuted :
   run_stream 5 k_repaired [0; 164; 0; 0] (pcd_start k_repaired [0; 164; 0; 0] 0) (fun _ => ARx [242]) 0 = Crash IndexErr /\
   run_stream 5 k_legacy [0; 164; 0; 0] (pcd_start k_legacy [0; 164; 0; 0] 0) (fun _ => ARx [242]) 0 = Crash IndexErr.
